@@ -4,7 +4,7 @@ CHECK = {
     "harness": "c17_rate.cpp",
     "srcs": MONITORING + DIAGNOSTICS,
     "flavours": ["asan"],
-    "quick": {"shards": 4, "timeout": 600},
+    "quick": {"shards": 8, "timeout": 600},
     "thorough": {"shards": 16, "timeout": 3600},
     "required_categories": [
         "periods_steady", "periods_jittered", "periods_bursty", "periods_silences", "periods_loguniform",
